@@ -803,6 +803,8 @@ class Interp:
         v = self.ev_val(val)
         if vartype == "array":
             raise OOD("scalar declared with type 'array'")
+        if name in self.prog.pnames:
+            raise OOD("tdm p-array name redeclared as a scalar")
         if isinstance(v, Sym):
             if v.regs():
                 raise OOD("register in a variable initialiser")
